@@ -622,6 +622,7 @@ func connScenarios() []*cfgT {
 		{name: "v2-3x1-free2-writefault", props: "C01", proto: 2, callers: [][]string{q(1), q(1), q(1)}, freeIDs: 2, canceller: -1, writeFault: "some", fates: []string{"reply", "late"}, t: [2]int{2, 4}},
 		{name: "v4-2x2-fates", props: "C01", proto: 4, callers: [][]string{q(2), q(2)}, canceller: -1, fates: all, t: [2]int{2, 4}},
 		{name: "v2-2x2-free2-coalesce", props: "C01", proto: 2, callers: [][]string{q(2), q(2)}, freeIDs: 2, canceller: -1, coalesce: true, fates: rln, t: [2]int{2, 4}},
+		{name: "v2-2x2-free2-coalesce-cancel", props: "C01", proto: 2, callers: [][]string{q(2), q(2)}, freeIDs: 2, canceller: 0, coalesce: true, fates: rln, t: [2]int{2, 4}},
 		{name: "v2-3x2-free1-late", props: "C01", proto: 2, callers: [][]string{q(2), q(2), q(2)}, freeIDs: 1, canceller: -1, fates: rln, t: [2]int{2, 4}},
 		// C06
 		{name: "v4-buildfail-cancel", props: "C06", proto: 4, callers: [][]string{{"b", "q"}, {"q", "b"}}, canceller: 1, fates: rln, t: [2]int{3, 4}},
